@@ -51,8 +51,9 @@ def params(tier, seed):
 
 
 # ------------------------------------------------------------------------------------------------ model
-def model_phase(rep, tier):
-    """-> obligations by component, or None"""
+def model_phase(rep, tier, late):
+    """-> obligations by component, or None.  late: list that receives a function to call at the end of the run
+    (thorough tier: the 3-thread model check keeps running while the harness phases execute)"""
     P = 6 if tier == "quick" else 12
     names = ["queue-distributor-len", "set-producer-lock"] if tier == "quick" else list(ASIS)
     out = {}
@@ -68,10 +69,18 @@ def model_phase(rep, tier):
         out["asis:" + n] = tlc.run_tlc(COMP, "LockDiscipline", "X.cfg", workers=2, timeout=300, files={"X.cfg": cfg})
 
     ths = [threading.Thread(target=main)] + [threading.Thread(target=asis, args=(n,)) for n in names]
-    if tier != "quick":
-        ths.append(threading.Thread(target=three))
     for t in ths:
         t.start()
+    if tier != "quick":
+        t3 = threading.Thread(target=three)
+        t3.start()
+
+        def finish3():
+            t3.join()
+            rep.add_tlc("LockDiscipline/MC_3.cfg", out["mc3"], "3 threads, components with once/frozen/rw guards + waitgroup collector queue")
+            if not out["mc3"].ok:
+                rep.infra_error("3-thread model check failed (%s)\n%s" % (out["mc3"].violated, out["mc3"].out[-1500:]))
+        late.append(finish3)
     for t in ths:
         t.join()
     r = out["mc"]
@@ -80,11 +89,6 @@ def model_phase(rep, tier):
     if not r.ok:
         rep.infra_error("model check of the lock table failed (%s): table and code must be re-aligned\n%s" % (r.violated, r.out[-1500:]))
         return None
-    if "mc3" in out:
-        rep.add_tlc("LockDiscipline/MC_3.cfg", out["mc3"], "3 threads, components with once/frozen/rw guards + waitgroup collector queue")
-        if not out["mc3"].ok:
-            rep.infra_error("3-thread model check failed (%s)\n%s" % (out["mc3"].violated, out["mc3"].out[-1500:]))
-            return None
     for n in names:
         ra = out["asis:" + n]
         rep.add_tlc("LockDiscipline/as-is:" + n, ra, "table as the code is without repair %s: expected to violate %s" % (n, ASIS[n][3]))
@@ -240,7 +244,17 @@ def run(rep, tier, seed, replay_file=None):
         phase[name] = round(time.time() - t0, 1)
         t0 = time.time()
 
-    obl = model_phase(rep, tier)
+    late = []
+    try:
+        body(rep, tier, seed, p, late, lap)
+    finally:
+        for f in late:
+            f()
+        lap("late")
+
+
+def body(rep, tier, seed, p, late, lap):
+    obl = model_phase(rep, tier, late)
     lap("model")
     if obl is None:
         return
